@@ -23,6 +23,11 @@ both the original snapshot and the fixed tree:
   f12 : the salted passphrase is built in a fresh buffer (an EMPTY passphrase does not alias, and then wipe,
         `privPassphraseSalt` through `append(salt[:], passphrase...)` + `zero.Bytes`)                    (not fixed)
 
+  f13 : the onCommit closure of nextAddresses wipes the clear-text key of the address objects it caches when the
+        manager is locked at commit time                                                                 (patch F13)
+  fo1 : Unlock restores cryptoKeyScript from cryptoKeyScriptEncrypted (it used to stay the zero key) and
+        deletePrivateKeys also handles secret taproot script rows                                        (b81a3ff)
+
 The empty passphrase has id `EMPTY = 0`.
 -/
 namespace AddrLock
@@ -34,13 +39,17 @@ structure Cfg where
   f3  : Bool
   f11 : Bool
   f12 : Bool
+  f13 : Bool
+  fo1 : Bool
   cap : Nat
 deriving Repr, DecidableEq, Inhabited
 
-def Cfg.fixed : Cfg := ⟨true, true, true, true, true, true, 10000⟩
-/-- the tree delivered against: every fix that is committed in /repo, f12 open -/
-def Cfg.repo : Cfg := ⟨true, true, true, true, true, false, 10000⟩
-def Cfg.snapshot : Cfg := ⟨false, false, false, false, false, false, 10000⟩
+def Cfg.fixed : Cfg := ⟨true, true, true, true, true, true, true, true, 10000⟩
+/-- /repo at ebb54a5 (first delivery): f12, f13, fo1 open -/
+def Cfg.repo : Cfg := ⟨true, true, true, true, true, false, false, false, 10000⟩
+/-- /repo at b81a3ff: only f13 open -/
+def Cfg.repo2 : Cfg := ⟨true, true, true, true, true, true, false, true, 10000⟩
+def Cfg.snapshot : Cfg := ⟨false, false, false, false, false, false, false, false, 10000⟩
 
 /-- id of the empty passphrase -/
 def EMPTY : Nat := 0
@@ -256,6 +265,16 @@ def keyToManaged (m : Mem) (sc acct br idx : Nat) (priv : Bool) : Mem × Nat :=
   if priv then r
   else (r.1.updScope sc (fun s => { s with dou := s.dou ++ [⟨r.2, acct, br, idx⟩] }), r.2)
 
+/-- the account info built by `loadAccountInfo` from an account row, cached under the account number -/
+def loadAcctRow (m : Mem) (sc acct : Nat) (row : AcctRow) : Mem :=
+  let hasPriv := !m.locked && !m.watchOnly && !row.wo
+  let r1 := keyToManaged m sc acct 0 (row.nextExt - 1) hasPriv
+  let r2 := keyToManaged r1.1 sc acct 1 (row.nextInt - 1) hasPriv
+  let ai : AcctInfo :=
+    { name := row.name, wo := row.wo, hasEnc := row.hasPriv && !row.wo, keyPriv := hasPriv,
+      nextExt := row.nextExt, nextInt := row.nextInt, lastExt := r1.2, lastInt := r2.2 }
+  r2.1.updScope sc fun s => { s with acctInfo := aset s.acctInfo acct ai }
+
 /-- `loadAccountInfo` -/
 def loadAcct (d : Disk) (m : Mem) (sc acct : Nat) : Except Err Mem :=
   match aget (m.scopes sc).acctInfo acct with
@@ -266,14 +285,8 @@ def loadAcct (d : Disk) (m : Mem) (sc acct : Nat) : Except Err Mem :=
     | some row =>
       -- the imported account row has no extended keys: decrypting the (nil) public key fails
       if acct = IMPORTED then .error .crypto else
-      let hasPriv := !m.locked && !m.watchOnly && !row.wo
-      if hasPriv && !row.hasPriv then .error .crypto else
-      let r1 := keyToManaged m sc acct 0 (row.nextExt - 1) hasPriv
-      let r2 := keyToManaged r1.1 sc acct 1 (row.nextInt - 1) hasPriv
-      let ai : AcctInfo :=
-        { name := row.name, wo := row.wo, hasEnc := row.hasPriv && !row.wo, keyPriv := hasPriv,
-          nextExt := row.nextExt, nextInt := row.nextInt, lastExt := r1.2, lastInt := r2.2 }
-      .ok (r2.1.updScope sc fun s => { s with acctInfo := aset s.acctInfo acct ai })
+      if (!m.locked && !m.watchOnly && !row.wo) && !row.hasPriv then .error .crypto else
+      .ok (loadAcctRow m sc acct row)
 
 def acctInfoOf (m : Mem) (sc acct : Nat) : Option AcctInfo := aget (m.scopes sc).acctInfo acct
 
@@ -361,6 +374,11 @@ for an empty passphrase the append returns the salt array itself, so the wipe cl
 def saltAfter (cfg : Cfg) (m : Mem) (p : Nat) : Bool :=
   if !cfg.f12 && p = EMPTY then true else m.saltZero
 
+/-- the master key is derived and the crypto private key (fo1: and the crypto script key) decrypted -/
+def unlockStart (cfg : Cfg) (m : Mem) : Mem :=
+  { m with masterPriv := .nonzero, cryptoPriv := .nonzero,
+           cryptoScript := if cfg.fo1 then .nonzero else m.cryptoScript }
+
 def unlock (cfg : Cfg) (d : Disk) (m : Mem) (p : Nat) : Mem × Option Err :=
   if m.watchOnly then (m, some .watchingOnly)
   else if !m.locked then
@@ -368,7 +386,7 @@ def unlock (cfg : Cfg) (d : Disk) (m : Mem) (p : Nat) : Mem × Option Err :=
     if m.hashed = some (p, m.saltZero) then (m', none) else (lockMem cfg m', some .wrongPassphrase)
   else if p ≠ m.privPass then (lockMem cfg m, some .wrongPassphrase)
   else
-    let m1 := { m with masterPriv := .nonzero, cryptoPriv := .nonzero }
+    let m1 := unlockStart cfg m
     match unlockScopes cfg d (List.range nScopes) m1 with
     | (m2, some .panic) => (m2, some .panic)
     | (m2, some e) => (lockMem cfg m2, some e)
@@ -414,21 +432,26 @@ def changePass (cfg : Cfg) (d : Disk) (m : Mem) (old new : Nat) (priv : Bool) : 
     if old ≠ m.pubPass then (d, m, some .wrongPassphrase)
     else ({ d with pubPass := new }, { m with pubPass := new }, none)
 
-/-- `deletePrivateKeys` on one scope bucket (secret *taproot* script rows are not handled by the Go switch). -/
-def delPrivScope (s : ScopeDisk) : ScopeDisk :=
+/-- `deletePrivateKeys` on an account row -/
+def delPrivAcct (r : AcctRow) : AcctRow := if r.wo then r else { r with hasPriv := false }
+
+/-- `deletePrivateKeys` on an address row (before b81a3ff secret *taproot* script rows were not handled) -/
+def delPrivAddr (cfg : Cfg) : ARow → ARow
+  | .chain => .chain
+  | .imp _ => .imp false
+  | .script _ => .script false
+  | .wscript tap sec hs => if (!tap || cfg.fo1) && sec then .wscript tap sec false else .wscript tap sec hs
+
+/-- `deletePrivateKeys` on one scope bucket -/
+def delPrivScope (cfg : Cfg) (s : ScopeDisk) : ScopeDisk :=
   { s with
-    accts := s.accts.map (fun p => (p.1, if p.2.wo then p.2 else { p.2 with hasPriv := false }))
-    addrs := s.addrs.map (fun p => (p.1,
-      match p.2 with
-      | .chain => .chain
-      | .imp _ => .imp false
-      | .script _ => .script false
-      | .wscript tap sec hs => if !tap && sec then .wscript tap sec false else .wscript tap sec hs)) }
+    accts := s.accts.map (fun p => (p.1, delPrivAcct p.2))
+    addrs := s.addrs.map (fun p => (p.1, delPrivAddr cfg p.2)) }
 
 def convertWO (cfg : Cfg) (d : Disk) (m : Mem) : Disk × Mem :=
   if m.watchOnly then (d, m)
   else
-    let d1 := { d with watchOnly := true, scopes := fun i => delPrivScope (d.scopes i) }
+    let d1 := { d with watchOnly := true, scopes := fun i => delPrivScope cfg (d.scopes i) }
     let m1 := if m.locked then m else lockMem cfg m
     let inAddrs (id : Nat) : Bool := (List.range nScopes).any fun sc => (m1.scopes sc).addrs.any (fun p => p.2 == id)
     let m2 : Mem :=
@@ -562,8 +585,15 @@ def nextAddresses (d : Disk) (m : Mem) (sc acct n : Nat) (internal : Bool) : Nex
            .ok (r.2.map fun e => .chain e.acct e.br e.idx)⟩
 
 /-- the `onCommit` closure of nextAddresses -/
-def runPend (m : Mem) (p : Pend) : Mem :=
-  let m1 := p.infos.foldl (cacheNew p.scope p.watchOnly) m
+def runPend (cfg : Cfg) (m : Mem) (p : Pend) : Mem :=
+  -- f13: `if s.rootManager.IsLocked() { a.lock() }` on every *managedAddress the closure is about to cache
+  let m0 : Mem :=
+    if cfg.f13 && m.locked then
+      { m with heap := fun id =>
+          if p.infos.any (fun e => e.obj == id) && (m.heap id).kind == .managed then { m.heap id with ct := false }
+          else m.heap id }
+    else m
+  let m1 := p.infos.foldl (cacheNew p.scope p.watchOnly) m0
   match p.infos.getLast?, acctInfoOf m1 p.scope p.acct with
   | some last, some ai =>
     m1.updScope p.scope fun s =>
@@ -866,7 +896,7 @@ def isErr : Res → Bool
   | _ => false
 
 def commitTx (s : State) : State :=
-  { s with snap := none, pend := [], mem := s.mem.map (fun m => s.pend.foldl runPend m) }
+  { s with snap := none, pend := [], mem := s.mem.map (fun m => s.pend.foldl (runPend s.cfg) m) }
 
 def rollbackTx (s : State) : State :=
   { s with disk := s.snap.getD s.disk, snap := none, pend := [] }
